@@ -870,7 +870,9 @@ class ConfigInformation:
                 pre_task.__xpm__.raw_identifier.all
                 for pre_task in self.collect_pre_tasks()
             ]
-            for task_id in sorted(pre_tasks_ids):
+            # (a set: equal pre-tasks count once, whether or not they are the
+            # same object)
+            for task_id in sorted(set(pre_tasks_ids)):
                 hasher.update(task_id)
 
             # Adds init tasks
